@@ -13,7 +13,7 @@ prop("C08", pkg="c08",
           "counted there too. evaluations = library decode calls (probes). Non-trivial = prefix of length > 0, any count mutation, flip, insertion not at the very "
           "first boundary, trailing/missing/mismatch probe; distinct = FNV-64 of (type descriptor, protocol, probe group, input bytes).",
      quick=dict(shards=16, scale=1, timeout=900),
-     thorough=dict(shards=16, scale=10, timeout=3000),
+     thorough=dict(shards=16, scale=8, timeout=3000),
      vlimit_gb=16,
      technique="property-based testing (rapid) + exhaustive prefix/header-mutation enumeration per generated encoding, validity and metamorphic oracles, "
                "out-of-process supervision with address-space limit and stall watchdog",
